@@ -267,7 +267,12 @@ impl Dictionary {
         }
         self.data.connector.map_connection_ids(&mapper);
         self.data.unk_handler.map_connection_ids(&mapper);
-        self.data.mapper = Some(mapper);
+        // The retained mapper translates the ids of the original files (used by user lexicons
+        // loaded later) into the current ids, so successive mappings must be composed.
+        self.data.mapper = Some(match self.data.mapper.take() {
+            Some(prev) => prev.then(&mapper),
+            None => mapper,
+        });
         Ok(self)
     }
 }
